@@ -492,6 +492,36 @@ def check(case, st):
                 v("solve_bruteforce-all", "solve_bruteforce(all_solutions=True) = %r misses optimal solutions %r" % (r, sorted(optimal - set(got), key=repr)))
 
 
+    # ---------------- the generic solve_bruteforce forwards its arguments to to_qubo: weights given POSITIONALLY, chosen so small
+    # that violating the constraint is optimal (a different minimiser set than with the default weights)
+    import inspect
+    from qubovert.problems import Problem
+    if type(prob).solve_bruteforce is Problem.solve_bruteforce:
+        try:
+            params = [q for q in inspect.signature(prob.to_qubo).parameters if q in ("A", "B")]
+        except (TypeError, ValueError):
+            params = []
+        if params:
+            pos = tuple({"A": 0.125, "B": 1}[q] for q in params)
+            Q, _w = call(prob.to_qubo, *pos)
+            r, _w = call(prob.solve_bruteforce, *pos, all_solutions=True)
+            st.transitions += 1
+            if isinstance(Q, Raised) or isinstance(r, Raised):
+                # weights below the documented thresholds are outside the statement; with them a variable's coefficient can cancel
+                # exactly and the decoder then fails on the smaller model (same family as D8 / D9): not judged here
+                st.outcomes["generic solve_bruteforce with sub-threshold positional weights raised (not judged)"] += 1
+            else:
+                nq = Q.num_binary_variables
+                if nq <= MAXV:
+                    t = rp.tt(dict(Q), list(range(nq)), False)
+                    mn = t.min()
+                    want = {ad.norm(prob.convert_solution(rp.assignment(a, list(range(nq)), False))) for a in range(1 << nq) if t[a] <= mn + 1e-9}
+                    got = {ad.norm(x) for x in r}
+                    if got != want:
+                        v("solve_bruteforce-positional", "solve_bruteforce%r (all_solutions) = %r, but the minimisers of to_qubo%r decode to %r "
+                          "(positional arguments are documented to be forwarded to to_qubo)" % (pos, sorted(got, key=repr), pos, sorted(want, key=repr)))
+
+
 def run(ctx):
     ctx.bounds = {"SetCover": "|U|<=3, <=3 covering subsets (plus one element in 4..7 subsets), weights None or patterns over {1,.5,.25} with max 1, log_trick both",
                   "VertexCover": "all edge sets (incl. self-loops) on <=4 vertices" + (" (<=5 edges on 4 vertices)" if ctx.quick else "") + ", int and str labels",
